@@ -1,6 +1,10 @@
-/- C12 — property theorems. -/
-import AttrsModel.Spec.C12
-import AttrsModel.Proofs.InitWf
+/-
+  C12 — property theorems: `evolve` is the class's initializer applied to (changes ∪ current values of the
+  other init fields), `assoc` an independent copy with the named fields replaced; unknown names are
+  rejected; the original is untouched; the result satisfies the class invariants.  Helper lemmas are in
+  Proofs/C12.lean; the initializer theorems used are `C01_values` and `C01_bind_iff`.
+-/
+import AttrsModel.Proofs.C12
 
 namespace Attrs.C12
 open Attrs.Init
@@ -10,5 +14,225 @@ theorem C12_original_untouched (c : Case) : (model c).orig = c.cur := by
   unfold model
   cases c.op <;> simp <;> split <;> try rfl
   split <;> rfl
+
+/-- **C12_evolve_is_init**: whenever every init field can be read, `evolve` raises exactly what the class's
+    initializer raises on the call `changes ∪ {alias ↦ current value}`, and otherwise returns a fresh
+    instance holding exactly the values that call constructs — so every theorem about construction
+    (C01/C02) applies to evolve's result. -/
+theorem C12_evolve_is_init (c : Case) (hop : c.op = .evolve)
+    (hm : evolveMissing c.base.run.attrs c.cur c.changes = false) :
+    (model c).exc = (runInit (evolveCase c)).exc ∧
+    ((runInit (evolveCase c)).exc = none →
+      (model c).values = (runInit (evolveCase c)).values ∧ (model c).fresh = true) := by
+  unfold model
+  rw [hop]
+  simp only [hm, Bool.false_eq_true, if_false]
+  cases h : (runInit (evolveCase c)).exc <;> simp
+
+/-- **C12_evolve_values**: evolving a fully constructed instance with changes that all name init aliases
+    succeeds and yields a fresh instance in which every changed field holds converter(new value), every
+    other init field converter(current value), and every `init=False` field is re-derived from its default
+    or factory (unset without one). -/
+theorem C12_evolve_values (c : Case) (hwf : wf c = true) (hk : known c = []) (hop : c.op = .evolve)
+    (hall : c.changes.all (fun kv => (c.base.run.attrs.filter (·.init)).any (·.alias == kv.1)) = true) :
+    (model c).exc = none ∧ (model c).fresh = true ∧
+    (model c).values = c.base.run.attrs.map (fun a => (a.name,
+      if a.init then (passedFor c a).map (convApply a)
+      else match a.dflt with
+        | .none => none
+        | .value => some (convApply a (dfltVal a))
+        | .factory ts => some (convApply a (factoryVal a ts)))) := by
+  have p := wfParts c hwf
+  have hok : callOk (params (evolveCase c).run.attrs) (evolveCase c).call = true := by
+    rw [← hall]; exact callOk_evolve c p
+  obtain ⟨e, v⟩ := C01.C01_values (evolveCase c) (wf_evolveCase c p) (known_nil c hk).1 hok
+  obtain ⟨h1, h2⟩ := C12_evolve_is_init c hop (evolveMissing_false c p)
+  obtain ⟨h3, h4⟩ := h2 e
+  refine ⟨by rw [h1, e], h4, ?_⟩
+  rw [h3, v]
+  apply List.map_congr_left
+  intro a ha
+  rw [show (evolveCase c).call = evolveCall c.base.run.attrs c.cur c.changes from rfl]
+  exact congrArg (Prod.mk a.name) (expected_evolve c p a ha)
+
+/-- **C12_unknown_typeerror**: a change whose name is not the alias of an init field makes `evolve` raise
+    TypeError (and, by `C12_evolve_values`, nothing else does). -/
+theorem C12_unknown_typeerror (c : Case) (hwf : wf c = true) (hk : known c = []) (hop : c.op = .evolve)
+    (hbad : c.changes.all (fun kv => (c.base.run.attrs.filter (·.init)).any (·.alias == kv.1)) = false) :
+    (model c).exc = some .typeError := by
+  have p := wfParts c hwf
+  have hok : callOk (params (evolveCase c).run.attrs) (evolveCase c).call = false := by
+    rw [← hbad]; exact callOk_evolve c p
+  have := (C01.C01_bind_iff (evolveCase c) (wf_evolveCase c p) (known_nil c hk).1).2 hok
+  rw [(C12_evolve_is_init c hop (evolveMissing_false c p)).1, this]
+
+/-- **C12_typeerror_iff**: for a fully constructed original, `evolve` raises TypeError exactly when some change
+    does not name the alias of an init field (in particular: a private field's name instead of its alias,
+    or an `init=False` field). -/
+theorem C12_typeerror_iff (c : Case) (hwf : wf c = true) (hk : known c = []) (hop : c.op = .evolve) :
+    (model c).exc = some .typeError ↔
+      c.changes.all (fun kv => (c.base.run.attrs.filter (·.init)).any (·.alias == kv.1)) = false := by
+  constructor
+  · intro h
+    cases hall : c.changes.all (fun kv => (c.base.run.attrs.filter (·.init)).any (·.alias == kv.1)) with
+    | false => rfl
+    | true =>
+      have := (C12_evolve_values c hwf hk hop hall).1
+      rw [this] at h
+      cases h
+  · exact C12_unknown_typeerror c hwf hk hop
+
+/-- **C12_assoc_spec**: `assoc` with field names only returns a fresh object whose fields are the original's
+    with exactly the named ones replaced (raw: no converter, no validator). -/
+theorem C12_assoc_spec (c : Case) (hwf : wf c = true) (hop : c.op = .assoc)
+    (hall : c.changes.all (fun kv => c.base.run.attrs.any (·.name == kv.1)) = true) :
+    (model c).exc = none ∧ (model c).fresh = true ∧
+    (model c).values =
+      c.cur.map (fun kv => (kv.1, match lookup kv.1 c.changes with | some w => some w | none => kv.2)) := by
+  have p := wfParts c hwf
+  have : c.changes.all (fun kv => c.cur.any (·.1 == kv.1)) = true := by
+    rw [← hall]; congr 1; funext kv; exact any_cur_eq c p kv.1
+  unfold model
+  rw [hop]
+  simp only [this, if_true, assocValues_eq]
+  exact ⟨trivial, trivial, rfl⟩
+
+/-- **C12_assoc_unknown_notfound**: a name that is not a field makes `assoc` raise
+    AttrsAttributeNotFoundError. -/
+theorem C12_assoc_unknown_notfound (c : Case) (hwf : wf c = true) (hop : c.op = .assoc)
+    (hbad : c.changes.all (fun kv => c.base.run.attrs.any (·.name == kv.1)) = false) :
+    (model c).exc = some .notFound := by
+  have p := wfParts c hwf
+  have : c.changes.all (fun kv => c.cur.any (·.1 == kv.1)) = false := by
+    rw [← hbad]; congr 1; funext kv; exact any_cur_eq c p kv.1
+  unfold model
+  rw [hop]
+  simp only [this, Bool.false_eq_true, if_false]
+
+/-- **C12_result_invariants**: outside the known findings, whatever either operation returns satisfies the
+    class invariants (equal to, and hashing like, an instance rebuilt from its own values; frozen iff the
+    class is). -/
+theorem C12_result_invariants (c : Case) (_hwf : wf c = true) (hk : known c = [])
+    (he : (model c).exc = none) : (model c).invariants = true := by
+  have hcm := (known_nil c hk).2
+  unfold model at he ⊢
+  cases hop : c.op with
+  | evolve =>
+    simp only [hop] at he ⊢
+    split
+    · rename_i hm; simp [hm] at he
+    · rename_i hm
+      simp only [hm, Bool.false_eq_true, if_false] at he
+      cases h : (runInit (evolveCase c)).exc with
+      | some e => simp [h] at he
+      | none => simp [hcm]
+  | assoc =>
+    simp only [hop] at he ⊢
+    split
+    · simp [hcm]
+    · rename_i hm; simp [hm] at he
+
+/-- **C12_model_meets_spec**: the model satisfies the declarative specification on every well-formed case
+    outside the listed known findings (K2, K3). -/
+theorem C12_model_meets_spec (c : Case) (hwf : wf c = true) (hk : known c = []) :
+    spec c (model c) = true := by
+  unfold spec
+  simp only [C12_original_untouched, beq_self_eq_true, Bool.true_and]
+  cases hop : c.op with
+  | evolve =>
+    simp only
+    cases hall : c.changes.all (fun kv => (c.base.run.attrs.filter (·.init)).any (·.alias == kv.1)) with
+    | true =>
+      obtain ⟨e, f, v⟩ := C12_evolve_values c hwf hk hop hall
+      have hi := C12_result_invariants c hwf hk e
+      simp only [e, f, v, hi, beq_self_eq_true, Bool.and_true, Bool.true_and, if_true]
+      exact beq_iff_eq.2 rfl
+    | false =>
+      have := C12_unknown_typeerror c hwf hk hop hall
+      simp [this]
+  | assoc =>
+    simp only
+    cases hall : c.changes.all (fun kv => c.base.run.attrs.any (·.name == kv.1)) with
+    | true =>
+      obtain ⟨e, f, v⟩ := C12_assoc_spec c hwf hop hall
+      have hi := C12_result_invariants c hwf hk e
+      simp only [e, f, v, hi, beq_self_eq_true, Bool.and_true, Bool.true_and, if_true]
+      exact beq_iff_eq.2 rfl
+    | false =>
+      have := C12_assoc_unknown_notfound c hwf hop hall
+      simp [this]
+
+/-! ### known findings and non-vacuity -/
+
+/-- the K3 witness: an instance of the K3 class of `C01.k3Witness` (a frozen dict class two levels below a
+    frozen slotted one, legacy collection) evolved without changes -/
+def k3Witness : Case :=
+  { base := C01.k3Witness, op := .evolve, cur := [("x", some "v0")], changes := [] }
+
+/-- **C12_known_slot_belief_witness** (K3): evolve constructs through the same initializer, so on a K3 class
+    the model — like the code — returns an instance whose field reads as unset. -/
+theorem C12_known_slot_belief_witness :
+    ∃ c, wf c = true ∧ "K3" ∈ known c ∧ spec c (model c) = false :=
+  ⟨k3Witness, by decide, by decide, by decide⟩
+
+/-- the K2 witness: a frozen dict hash-caching class whose cache attribute is a slot of a base -/
+def k2Witness : Case :=
+  { base := { run := { cfg := { frozen := true, slots := false, cacheHash := true, isExc := false, pre := .none,
+                                post := false, clsHook := false, runValidators := true, collectByMro := true },
+                       attrs := [{ name := "x", alias := "x", dflt := .none, init := true, kwOnly := false,
+                                   conv := none, validators := 0, onSet := .unset, isSlot := false, type := none,
+                                   convType := none }],
+                       own := ["x"], bases := [], cacheIsSlot := true, fault := none },
+              call := { pos := [], kw := [] }, isDefine := true, clsOnSet := .unset },
+    op := .evolve, cur := [("x", some "v0")], changes := [("x", "t1")] }
+
+/-- **C12_known_cache_misplaced_witness** (K2): the evolved instance cannot be hashed, so the invariants fail;
+    likewise for assoc. -/
+theorem C12_known_cache_misplaced_witness :
+    ∃ c, wf c = true ∧ "K2" ∈ known c ∧ spec c (model c) = false :=
+  ⟨k2Witness, by decide, by decide, by decide⟩
+
+theorem C12_known_cache_misplaced_witness_assoc :
+    ∃ c, wf c = true ∧ "K2" ∈ known c ∧ spec c (model c) = false :=
+  ⟨{ k2Witness with op := .assoc }, by decide, by decide, by decide⟩
+
+/-- a slotted class with a converted init field, an `init=False` factory field and a keyword-only field with
+    a private name; the second field was reassigned before -/
+def sample : Case :=
+  { base := { run := { cfg := { frozen := false, slots := true, cacheHash := false, isExc := false, pre := .none,
+                                post := false, clsHook := false, runValidators := true, collectByMro := true },
+                       attrs := [{ name := "x", alias := "x", dflt := .none, init := true, kwOnly := false,
+                                   conv := some { takesSelf := false, takesField := false }, validators := 1,
+                                   onSet := .unset, isSlot := true, type := none, convType := none },
+                                 { name := "y", alias := "y", dflt := .factory true, init := false, kwOnly := false,
+                                   conv := none, validators := 0, onSet := .unset, isSlot := true, type := none,
+                                   convType := none },
+                                 { name := "_z", alias := "z", dflt := .value, init := true, kwOnly := true,
+                                   conv := none, validators := 0, onSet := .unset, isSlot := true, type := none,
+                                   convType := none }],
+                       own := ["x", "y", "_z"], bases := [], cacheIsSlot := false, fault := none },
+              call := { pos := [], kw := [] }, isDefine := true, clsOnSet := .unset },
+    op := .evolve, cur := [("x", some "conv.x(t1)"), ("y", some "w"), ("_z", some "t2")],
+    changes := [("z", "t3")] }
+
+/-- non-vacuity: the hypotheses of `C12_evolve_values` / `C12_model_meets_spec` are satisfiable by a
+    non-trivial evolve case, … -/
+example : wf sample = true ∧ known sample = [] ∧
+    sample.changes.all (fun kv => (sample.base.run.attrs.filter (·.init)).any (·.alias == kv.1)) = true ∧
+    (model sample).values = [("x", some "conv.x(conv.x(t1))"), ("y", some "factory.y(self)"), ("_z", some "t3")] := by
+  refine ⟨by decide, by decide, by decide, by decide⟩
+
+/-- … those of `C12_unknown_typeerror` by one naming the field instead of its alias, … -/
+example : wf { sample with changes := [("_z", "t3")] } = true ∧ known { sample with changes := [("_z", "t3")] } = [] ∧
+    (model { sample with changes := [("_z", "t3")] }).exc = some .typeError := by
+  refine ⟨by decide, by decide, by decide⟩
+
+/-- … and those of `C12_assoc_spec` / `C12_assoc_unknown_notfound` by assoc cases. -/
+example : wf { sample with op := .assoc, changes := [("_z", "t3")] } = true ∧
+    (model { sample with op := .assoc, changes := [("_z", "t3")] }).values =
+      [("x", some "conv.x(t1)"), ("y", some "w"), ("_z", some "t3")] ∧
+    wf { sample with op := .assoc, changes := [("z", "t3")] } = true ∧
+    (model { sample with op := .assoc, changes := [("z", "t3")] }).exc = some .notFound := by
+  refine ⟨by decide, by decide, by decide, by decide⟩
 
 end Attrs.C12
